@@ -115,7 +115,14 @@ class Station:
             keys = [list(stack.addr_tuple(kk)) for kk in self.router._ls_timers.keys()]
             ev["sought"] = ctx.rng.choice(keys) if keys else [0, 0, 0]
         if ev["ev"] in ("rx", "geo", "guc") or (ev["ev"] == "btp" and ev["gn"] in ("geo", "guc")):
-            big, ins, dst, near_f, near_d = self.geo_tables(ev.get("area"), list(ev.get("dests") or []))
+            dests = list(ev.get("dests") or [])
+            # a forwarded unicast packet may be re-addressed to the position stored for its destination: provide
+            # distance rows towards every position currently in the location table as well
+            for e in self.router.location_table.loc_t.values():
+                pvv = e.position_vector
+                dests.append((pvv.latitude, pvv.longitude))
+                self.positions.add((pvv.latitude, pvv.longitude))
+            big, ins, dst, near_f, near_d = self.geo_tables(ev.get("area"), dests)
             near = (near_f, near_d)
             g = (big, ins, dst)
         obs = self.run_event(ev)
